@@ -33,7 +33,7 @@ def parseWallets (toks : List String) (s : BState) : BState :=
       | _, _, _ => s
     | _ => s) s
 
-def nWallets : Nat := 6
+def nWallets : Nat := 7     -- five wallets, the vesting sender, the poor wallet (`blockFixture.senders`)
 
 def showWallets (s : BState) : String :=
   " ".intercalate ((List.range nWallets).map (fun i => s!"{i}:{s.bal.get i}:{s.seq.get i}"))
